@@ -461,6 +461,41 @@ fn stress(nt: usize, iters: usize, seed: u64) -> String {
         })
     };
     for h in hs { let _ = h.join(); }
+    // phase 2: all creator threads released together (barrier) on a FRESH class, round after round:
+    // every thread must get the same storage and exactly one storage may be constructed per round
+    let rounds = std::cmp::max(iters / 20, 50);
+    {
+        let barrier = Arc::new(std::sync::Barrier::new(nt));
+        let ids: Arc<Vec<AtomicU64>> = Arc::new((0..nt).map(|_| AtomicU64::new(0)).collect());
+        for r in 0..rounds { class_info(200 + r as u32); }
+        let mut hs2 = Vec::new();
+        for t in 0..nt {
+            let (reg, errors, barrier, ids) = (reg.clone(), errors.clone(), barrier.clone(), ids.clone());
+            hs2.push(std::thread::spawn(move || {
+                for r in 0..rounds {
+                    let kind = ['c', 'g', 'h'][r % 3];
+                    let key = build_key(200 + r as u32, ((t + r) % 6) as u32);
+                    barrier.wait();
+                    let h = match kind {
+                        'c' => reg.get_or_create_counter(&key, |h| h.clone()),
+                        'g' => reg.get_or_create_gauge(&key, |h| h.clone()),
+                        _ => reg.get_or_create_histogram(&key, |h| h.clone()),
+                    };
+                    ids[t].store(h.0.id, SeqCst);
+                    barrier.wait();
+                    if t == 0 {
+                        let first = ids[0].load(SeqCst);
+                        if ids.iter().any(|x| x.load(SeqCst) != first) {
+                            let mut e = errors.lock().unwrap();
+                            if e.len() < 5 { e.push(format!("round {}: racing creators of fresh {}{} got different storages {:?}", r, kind, 200 + r, ids.iter().map(|x| x.load(SeqCst)).collect::<Vec<u64>>())); }
+                        }
+                    }
+                    barrier.wait();
+                }
+            }));
+        }
+        for h in hs2 { let _ = h.join(); }
+    }
     stop.store(true, SeqCst);
     let churn_ops = churner.join().unwrap_or(0);
     let log = slog.lock().unwrap().clone();
@@ -479,16 +514,25 @@ fn stress(nt: usize, iters: usize, seed: u64) -> String {
         for c in stable.iter() { if let Some(f) = firsts.get(&(kind, *c)) { if seen.get(c) != Some(f) { errs.push(format!("final listing of {} lost stable class {}", kind, c)); } } }
         live_churn += l.iter().filter(|(cl, _)| *cl == 2 || *cl == 17).count() as u64;
     }
+    for ((k, c), n) in cons.iter() {
+        if *c >= 200 && *n != 1 { errs.push(format!("{} constructions for fresh class {}{} raced by all creators", n, k, c)); }
+    }
+    let fresh_rounds = cons.keys().filter(|(_, c)| *c >= 200).count();
     let churn_cons: u64 = cons.iter().filter(|((_, c), _)| *c == 2 || *c == 17).map(|(_, n)| *n).sum();
     if churn_cons != removed.load(SeqCst) + live_churn {
         errs.push(format!("churn classes: {} constructions != {} removals + {} live", churn_cons, removed.load(SeqCst), live_churn));
     }
     errs.truncate(5);
-    format!("STRESS ok={} ops={} churn_ops={} stable_pairs={} churn_constructions={} ; {}", if errs.is_empty() { 1 } else { 0 },
-            ops.load(SeqCst), churn_ops, firsts.len(), churn_cons, errs.join(" | "))
+    format!("STRESS ok={} ops={} churn_ops={} stable_pairs={} churn_constructions={} barrier_rounds={} ; {}", if errs.is_empty() { 1 } else { 0 },
+            ops.load(SeqCst), churn_ops, firsts.len(), churn_cons, fresh_rounds, errs.join(" | "))
 }
 
+// only this property's own yield sites take part in the schedule: instrumented code of other
+// properties reached from here (e.g. Key::get_hash under a registry lock) must pass through
+fn own_site(site: u32) -> bool { (601..=615).contains(&site) }
+
 fn main() {
+    sched::set_site_filter(Some(own_site));
     let stdin = std::io::stdin();
     let stdout = std::io::stdout();
     let mut w = std::io::BufWriter::new(stdout.lock());
